@@ -96,6 +96,7 @@ struct watch
     int want;
     std::shared_ptr<pika::counting_semaphore<>> sem;
     int budget;    // < 0: unbounded
+    bool terminated = false;    // wait for `terminated` instead of `suspended`
 };
 static std::vector<watch> g_watches;
 static void flag_setter()
@@ -117,7 +118,8 @@ static void flag_setter()
         for (auto& w : watches)
         {
             bool there = w.stage->load() >= w.want &&
-                pika::threads::detail::get_thread_state(w.id).state() == pika::threads::detail::thread_schedule_state::suspended;
+                pika::threads::detail::get_thread_state(w.id).state() ==
+                    (w.terminated ? pika::threads::detail::thread_schedule_state::terminated : pika::threads::detail::thread_schedule_state::suspended);
             if (there || w.budget == 0) { w.sem->release(); continue; }
             if (w.budget > 0) --w.budget;
             std::lock_guard<std::mutex> l(g_flag_mtx);
@@ -491,6 +493,25 @@ static void zoo_root(long id, std::uint64_t seed, int rounds)
                 t.detach();
                 g.pause();
                 done->acquire();
+                g.resume_();
+            }
+            else if (r.below(2) == 0)
+            {
+                // interrupt() on a thread whose function has already finished (state terminated, handle still joinable):
+                // the request must die with that incarnation - the object is recycled for unrelated tasks that yield
+                auto stage = std::make_shared<std::atomic<int>>(1);
+                auto gone = std::make_shared<pika::counting_semaphore<>>(0);
+                pika::thread t([=] { zoo_leaf(cid, cs, true, nullptr); });
+                {
+                    std::lock_guard<std::mutex> l(g_flag_mtx);
+                    watch w{t.native_handle(), stage, 1, gone, -1};
+                    w.terminated = true;
+                    g_watches.push_back(w);
+                }
+                g.pause();
+                gone->acquire();
+                t.interrupt();
+                t.join();
                 g.resume_();
             }
             else
